@@ -279,8 +279,8 @@ class _Subst(ast.NodeTransformer):
 
 
 def _pure(e):
-    if isinstance(e, (ast.Name, ast.Constant)):
-        return True
+    if isinstance(e, (ast.Name, ast.Constant, ast.Lambda)):
+        return True           # (creating a lambda has no effect; where it is called is where its body runs)
     if isinstance(e, ast.Attribute):
         if isinstance(e.value, ast.Call) and isinstance(e.value.func, ast.Name) and e.value.func.id == 'super' and not e.value.args and not e.value.keywords:
             return True           # super().method: a bound-method lookup
@@ -597,6 +597,9 @@ class _Inliner:
                 if isinstance(t, ast.Assign) and len(t.targets) == 1 and isinstance(t.targets[0], ast.Name) and isinstance(v, ast.Name) \
                         and v.id == t.targets[0].id:
                     return []          # v = v
+                if isinstance(t, ast.Assign) and len(t.targets) == 1 and isinstance(t.targets[0], ast.Attribute) and _pure(t.targets[0]) \
+                        and isinstance(v, ast.Attribute) and ast.unparse(v) == ast.unparse(t.targets[0]):
+                    return []          # self.x = self.x
                 return [t]
             return prefix + _conv(body, make), None
         ret = tag + 'ret'
@@ -772,10 +775,15 @@ class _Inliner:
                                 if isinstance(x, ast.Call) and self._call_kind(x, name, info) is not None and \
                                         not any(x is y for y in ast.walk(info[3])):
                                     raise _Blocked()
-                        info[4].remove(info[3])
-                        if not info[4]:
-                            info[4].append(ast.Pass())
+                        if not _remove_def(self.mods[info[1]], info[3]):
+                            raise _Blocked()
                         self.done.append(info[0])
+                        # leave each rewritten caller in its normal form (the next helper may only become integrable then)
+                        for key2, mod2, cls2, fn2, _c2 in list(_functions(self.mods)):
+                            if key2 in touched.get(mod2, ()):
+                                nb = [_OperatorCalls().visit(b) for b in fn2.body]
+                                fn2.body = nb
+                                tidy(fn2)
                         cands.pop(name)
                         # consistent line numbers for the next helper (and for the rules): re-parse what was rewritten
                         for m2 in list(self.mods):
@@ -803,6 +811,21 @@ class _Inliner:
         return touched
 
 
+def _remove_def(tree, fn):
+    """Take the definition out of whichever statement list holds it now (lists are rebuilt while statements are expanded)."""
+    for parent in ast.walk(tree):
+        for fld in ('body', 'orelse', 'finalbody'):
+            lst = getattr(parent, fld, None)
+            if isinstance(lst, list):
+                for i, st in enumerate(lst):
+                    if st is fn:
+                        del lst[i]
+                        if not lst and fld == 'body':
+                            lst.append(ast.Pass())
+                        return True
+    return False
+
+
 class _Blocked(Exception):
     pass
 
@@ -811,6 +834,16 @@ def _truth(e):
     """True / False if the test is decided by constants alone, else None."""
     if isinstance(e, ast.Constant) and isinstance(e.value, (bool, int, type(None), str)):
         return bool(e.value)
+    if isinstance(e, ast.Lambda):
+        return True
+    if isinstance(e, ast.Compare) and len(e.ops) == 1 and isinstance(e.ops[0], (ast.Is, ast.IsNot)):
+        a, b = e.left, e.comparators[0]
+        for u, v in ((a, b), (b, a)):
+            if isinstance(v, ast.Constant) and v.value is None:
+                if isinstance(u, ast.Lambda):
+                    return isinstance(e.ops[0], ast.IsNot)
+                if isinstance(u, ast.Constant):
+                    return (u.value is None) == isinstance(e.ops[0], ast.Is)
     if isinstance(e, ast.UnaryOp) and isinstance(e.op, ast.Not):
         v = _truth(e.operand)
         return None if v is None else not v
@@ -861,6 +894,11 @@ def _prune(stmts, top=True):
                 continue
             if not s.body:
                 s.body = [ast.Pass()]
+            if s.orelse and all(isinstance(b, ast.Pass) for b in s.body):
+                # `if c: pass else: X` is `if not c: X`
+                t0 = s.test
+                s.test = t0.operand if isinstance(t0, ast.UnaryOp) and isinstance(t0.op, ast.Not) else ast.UnaryOp(op=ast.Not(), operand=t0)
+                s.body, s.orelse = s.orelse, []
         out.append(s)
         if isinstance(s, (ast.Raise, ast.Return)):
             break              # what follows an unconditional raise/return (after a flag was decided) cannot run
@@ -954,6 +992,21 @@ class _OperatorCalls(ast.NodeTransformer):
     def visit_Call(self, node):
         self.generic_visit(node)
         f = node.func
+        # (lambda a, b: E)(x, y) with side-effect-free arguments is E[a := x, b := y]
+        if isinstance(f, ast.Lambda) and not node.keywords and not f.args.vararg and not f.args.kwarg and not f.args.kwonlyargs \
+                and not f.args.defaults and len(node.args) == len(f.args.posonlyargs + f.args.args) \
+                and all(_pure(a) and not isinstance(a, ast.Starred) for a in node.args):
+            params = [a.arg for a in f.args.posonlyargs + f.args.args]
+            bound_inside = {y.id for y in ast.walk(f.body) if isinstance(y, ast.Name) and isinstance(y.ctx, ast.Store)} | \
+                {a.arg for y in ast.walk(f.body) if isinstance(y, ast.Lambda) for a in y.args.args}
+            arg_names = {y.id for a in node.args for y in ast.walk(a) if isinstance(y, ast.Name)}
+            if not (bound_inside & (arg_names | set(params))):
+                new = _Subst(dict(zip(params, node.args))).visit(copy.deepcopy(f.body))
+                return ast.copy_location(self.visit(new) if isinstance(new, ast.Call) else new, node)
+        # getattr(x, 'name') with a literal identifier is the attribute x.name
+        if isinstance(f, ast.Name) and f.id == 'getattr' and len(node.args) == 2 and not node.keywords and isinstance(node.args[1], ast.Constant) \
+                and isinstance(node.args[1].value, str) and node.args[1].value.isidentifier() and _pure(node.args[0]):
+            return ast.copy_location(ast.Attribute(value=node.args[0], attr=node.args[1].value, ctx=ast.Load()), node)
         if isinstance(f, ast.Attribute) and isinstance(f.value, ast.Name) and f.value.id == 'operator' and f.attr in _OPERATOR \
                 and len(node.args) == 2 and not node.keywords:
             return ast.copy_location(ast.BinOp(left=node.args[0], op=_OPERATOR[f.attr](), right=node.args[1]), node)
@@ -1148,7 +1201,8 @@ def _copyprop(fn):
             if glob_attr:
                 u = a.targets[0].id
                 later = sub[i + 1:]
-                nested = any(isinstance(x, (ast.FunctionDef, ast.Lambda)) and x is not fn for x in ast.walk(fn))
+                nested = any(isinstance(x, (ast.FunctionDef, ast.Lambda)) and x is not fn and any(
+                    isinstance(y, ast.Name) and y.id == u for y in ast.walk(x)) for x in ast.walk(fn))
                 reads_all = sum(1 for x in ast.walk(fn) if isinstance(x, ast.Name) and x.id == u and isinstance(x.ctx, ast.Load))
                 reads_later = sum(1 for st in later for x in ast.walk(st) if isinstance(x, ast.Name) and x.id == u and isinstance(x.ctx, ast.Load))
                 if not nested and reads_all == reads_later:
@@ -1162,7 +1216,8 @@ def _copyprop(fn):
                 u, v = a.targets[0].id, a.value.id
                 later = sub[i + 1:]
                 rebound = any(isinstance(x, ast.Name) and x.id == v and isinstance(x.ctx, (ast.Store, ast.Del)) for st in later for x in ast.walk(st))
-                nested = any(isinstance(x, (ast.FunctionDef, ast.Lambda)) and x is not fn for x in ast.walk(fn))
+                nested = any(isinstance(x, (ast.FunctionDef, ast.Lambda)) and x is not fn and any(
+                    isinstance(y, ast.Name) and y.id == u for y in ast.walk(x)) for x in ast.walk(fn))       # a closure captures u
                 # every read of u is in the statements that follow the binding in this very block
                 reads_all = sum(1 for x in ast.walk(fn) if isinstance(x, ast.Name) and x.id == u and isinstance(x.ctx, ast.Load))
                 reads_later = sum(1 for st in later for x in ast.walk(st) if isinstance(x, ast.Name) and x.id == u and isinstance(x.ctx, ast.Load))
@@ -1259,8 +1314,9 @@ def undo_renames(mods):
             if len(cands) != 1:
                 continue
             newname = present[cands[0]][2].name
-            if not oldname.startswith('_') or oldname.startswith('__') or newname in base_names or oldname in used:
-                continue
+            still_there = any(k in present and k.split(':')[1].split('.')[-1] == oldname for k in baseline)
+            if not oldname.startswith('_') or oldname.startswith('__') or newname in base_names or (oldname in used and not still_there):
+                continue          # (an old name that other functions of the reviewed tree still carry is as it was)
             if sum(1 for k, (m_, c_, fn) in present.items() if fn.name == newname) != sum(1 for k in missing if k.split(':')[1].split('.')[-1] == oldname):
                 continue            # the new name also names something else
             if pairs.get(newname, oldname) != oldname:
@@ -1279,7 +1335,208 @@ def undo_renames(mods):
                 elif isinstance(x, ast.FunctionDef) and x.name in pairs:
                     x.name = pairs[x.name]
         done.update(pairs)
+    # second phase: a renamed function whose body was also restyled.  A function of the reviewed tree is gone, its name is used
+    # nowhere any more, and among the new functions of the same scope and arity exactly one uses the same vocabulary (identifiers,
+    # attributes, constants) - that one is read under the old name.  The rules then examine its body as they would the old one's,
+    # so nothing is taken on trust: the association only decides WHICH rules look at it.
+    present = {key: (mod, cls, fn) for key, mod, cls, fn, _c in _functions(mods)}
+
+    def nested(k):
+        parts = k.split('#')[0].split('.')
+        return any('.'.join(parts[:i]) in baseline for i in range(1, len(parts)))
+    missing = [k for k, d in baseline.items() if k not in present and d and not nested(k) and '@' not in k]
+    if missing:
+        used = set()
+        for mod, tree in mods.items():
+            if mod == 'luts':
+                continue
+            for x in ast.walk(tree):
+                if isinstance(x, ast.Name):
+                    used.add(x.id)
+                elif isinstance(x, ast.Attribute):
+                    used.add(x.attr)
+                elif isinstance(x, (ast.FunctionDef, ast.ClassDef)):
+                    used.add(x.name)
+
+        def vocab(fn):
+            out = set()
+            for x in ast.walk(fn):
+                if x is fn:
+                    continue
+                if isinstance(x, ast.Name):
+                    out.add(x.id)
+                elif isinstance(x, ast.Attribute):
+                    out.add(x.attr)
+                elif isinstance(x, ast.Constant) and not (isinstance(x.value, str) and len(x.value) > 20):
+                    out.add(repr(x.value))
+            return out
+        base_vocab = _baseline_vocab()
+        pairs = {}
+        for old in sorted(missing):
+            oldname = old.split(':')[1].split('.')[-1]
+            scope = old[:len(old) - len(oldname)]
+            still_there = any(k in present and k.split(':')[1].split('.')[-1] == oldname for k in baseline)
+            if (oldname in used and not still_there) or oldname.startswith('__') or old not in base_vocab:
+                continue
+            arity, ov = base_vocab[old]
+            cands = []
+            for k, (mod, cls, fn) in present.items():
+                if k in baseline or k[:len(k) - len(fn.name)] != scope or fn.name in base_names or fn.name in pairs:
+                    continue
+                a = fn.args
+                if len(a.posonlyargs + a.args) != arity or a.vararg or a.kwarg:
+                    continue
+                nv = vocab(fn)
+                j = len(ov & nv) / max(1, len(ov | nv))
+                cands.append((j, fn.name))
+            cands.sort(reverse=True)
+            if cands and cands[0][0] >= 0.8 and (len(cands) == 1 or cands[1][0] < cands[0][0] - 0.15):
+                newname = cands[0][1]
+                if sum(1 for k, (m_, c_, fn) in present.items() if fn.name == newname) == 1:
+                    pairs[newname] = oldname
+        if pairs:
+            for mod, tree in mods.items():
+                if mod == 'luts':
+                    continue
+                for x in ast.walk(tree):
+                    if isinstance(x, ast.Name) and x.id in pairs:
+                        x.id = pairs[x.id]
+                    elif isinstance(x, ast.Attribute) and x.attr in pairs:
+                        x.attr = pairs[x.attr]
+                    elif isinstance(x, ast.FunctionDef) and x.name in pairs:
+                        x.name = pairs[x.name]
+            done.update(pairs)
     return done
+
+
+def _baseline_vocab():
+    """{key: (number of positional parameters, vocabulary)} of the reviewed tree's functions (engine/reason_digests.json)."""
+    try:
+        with open(os.path.join(HERE, 'reason_digests.json')) as fh:
+            v = json.load(fh).get('*vocab', {})
+            return {k: (a, set(w)) for k, (a, w) in v.items()}
+    except (OSError, ValueError):
+        return {}
+
+
+def _callable_like(e, mod_funcs):
+    return isinstance(e, ast.Lambda) or (isinstance(e, ast.Name) and (e.id in mod_funcs or e.id[:1].isupper())) or \
+        (isinstance(e, ast.Attribute)) or (isinstance(e, ast.Call))
+
+
+def _no_continue(stmts):
+    """The loop body without `continue`: what follows an `if c: ...; continue` moves into its else.  None if a continue or break
+    sits anywhere else."""
+    out = []
+    for i, st in enumerate(stmts):
+        if isinstance(st, ast.Continue):
+            return out
+        if isinstance(st, ast.Break):
+            return None
+        if isinstance(st, ast.If) and not st.orelse and st.body and isinstance(st.body[-1], ast.Continue):
+            if any(isinstance(y, (ast.Continue, ast.Break)) for b in st.body[:-1] for y in ast.walk(b)):
+                return None
+            rest = _no_continue(stmts[i + 1:])
+            if rest is None:
+                return None
+            body = st.body[:-1] or [ast.Pass()]
+            out.append(ast.If(test=st.test, body=body, orelse=rest))
+            return out
+        if any(isinstance(y, (ast.Continue, ast.Break)) for y in ast.walk(st)):
+            return None
+        out.append(st)
+    return out
+
+
+def unroll_tables(mods):
+    """`for types, fn in TABLE: <body>` over a module-level literal table of (..., callable) rows that nothing changes is the same
+    as its rows written out one after the other - which is how the reviewed code reads (an if/elif chain).  Returns the set of
+    (module, function name) rewritten."""
+    touched = set()
+    for mod, tree in mods.items():
+        if mod == 'luts':
+            continue
+        tables = {}
+        mod_funcs = {n.name for n in tree.body if isinstance(n, ast.FunctionDef)}
+        for n in tree.body:
+            tgt = val = None
+            if isinstance(n, ast.Assign) and len(n.targets) == 1 and isinstance(n.targets[0], ast.Name):
+                tgt, val = n.targets[0].id, n.value
+            elif isinstance(n, ast.AnnAssign) and isinstance(n.target, ast.Name) and n.value is not None:
+                tgt, val = n.target.id, n.value
+            if tgt and isinstance(val, (ast.Tuple, ast.List)) and 1 <= len(val.elts) <= 32 and all(isinstance(r, ast.Tuple) for r in val.elts) \
+                    and len({len(r.elts) for r in val.elts}) == 1 and any(_callable_like(e, mod_funcs) and not isinstance(e, ast.Constant) for r in val.elts for e in r.elts[1:]):
+                tables[tgt] = (n, val)
+        if not tables:
+            continue
+        # a table that is written to, or used for anything but such a loop, stays as it is
+        uses = {t: 0 for t in tables}
+        loops = []
+        for x in ast.walk(tree):
+            if isinstance(x, ast.Name) and x.id in tables:
+                uses[x.id] += 1
+        for x in ast.walk(tree):
+            if isinstance(x, ast.For) and isinstance(x.iter, ast.Name) and x.iter.id in tables and not x.orelse:
+                loops.append(x)
+        per = {}
+        for lp in loops:
+            per[lp.iter.id] = per.get(lp.iter.id, 0) + 1
+        for t in list(tables):
+            if uses[t] != 1 + per.get(t, 0):           # its definition plus the loops
+                tables.pop(t)
+        if not tables:
+            continue
+        for key, m2, cls, fn, container in list(_functions({mod: tree})):
+            changed = False
+
+            def rewrite(stmts):
+                nonlocal changed
+                out = []
+                for st in stmts:
+                    for fld in ('body', 'orelse', 'finalbody'):
+                        sub = getattr(st, fld, None)
+                        if isinstance(sub, list) and sub and isinstance(sub[0], ast.stmt) and not isinstance(st, (ast.FunctionDef, ast.ClassDef)):
+                            setattr(st, fld, rewrite(sub))
+                    if isinstance(st, ast.For) and isinstance(st.iter, ast.Name) and st.iter.id in tables and not st.orelse:
+                        rows = tables[st.iter.id][1].elts
+                        width = len(rows[0].elts)
+                        names = [t.id for t in st.target.elts] if isinstance(st.target, ast.Tuple) and all(isinstance(t, ast.Name) for t in st.target.elts) else None
+                        body = _no_continue(st.body)
+                        stores = {y.id for b in st.body for y in ast.walk(b) if isinstance(y, ast.Name) and isinstance(y.ctx, ast.Store)}
+                        if names and len(names) == width and body is not None and not (set(names) & stores):
+                            for r in rows:
+                                row = dict(zip(names, r.elts))
+
+                                class _NoneTests(ast.NodeTransformer):
+                                    # `fn is None` for this row: decided by what the row holds (a function, a lambda, a class - or None)
+                                    def visit_Compare(self, node):
+                                        self.generic_visit(node)
+                                        if len(node.ops) == 1 and isinstance(node.ops[0], (ast.Is, ast.IsNot)) and isinstance(node.left, ast.Name) \
+                                                and node.left.id in row and isinstance(node.comparators[0], ast.Constant) and node.comparators[0].value is None:
+                                            e = row[node.left.id]
+                                            isnone = isinstance(e, ast.Constant) and e.value is None
+                                            known = isnone or isinstance(e, (ast.Lambda, ast.Tuple)) or (isinstance(e, ast.Constant)) or \
+                                                (isinstance(e, ast.Name) and (e.id in mod_funcs or e.id[:1].isupper())) or \
+                                                (isinstance(e, ast.Attribute) and isinstance(e.value, ast.Name) and e.value.id in mods)
+                                            if known:
+                                                return ast.copy_location(ast.Constant(value=(isnone == isinstance(node.ops[0], ast.Is))), node)
+                                        return node
+                                sb = _Subst(row)
+                                out.extend(sb.visit(_NoneTests().visit(copy.deepcopy(b))) for b in body)
+                            changed = True
+                            continue
+                    out.append(st)
+                return out
+            fn.body = rewrite(fn.body)
+            if changed:
+                fn.body = _prune([_OperatorCalls().visit(b) for b in fn.body])
+                touched.add((mod, key))
+        # tables no longer used go (so that helpers they named are only referenced from the unrolled code)
+        still = {x.id for x in ast.walk(tree) if isinstance(x, ast.Name) and isinstance(x.ctx, ast.Load)}
+        for t, (node, _v) in tables.items():
+            if t not in still and any(k[0] == mod for k in touched):
+                tree.body.remove(node)
+    return touched
 
 
 def integrate(mods, src):
@@ -1288,13 +1545,27 @@ def integrate(mods, src):
     baseline = baseline_functions()
     if not baseline:
         return {}, []
+    try:
+        unrolled = unroll_tables(mods)
+    except Exception:
+        unrolled = set()
+    if unrolled:
+        # an unrolled function may now be recognisable as the (renamed) function of the reviewed tree it replaces
+        try:
+            again = undo_renames(mods)
+        except Exception:
+            again = {}
+        if again:
+            unrolled = {(m_, k.rsplit('.', 1)[0] + '.' + again.get(k.rsplit('.', 1)[-1], k.rsplit('.', 1)[-1]) if '.' in k.split(':')[1] else k) for m_, k in unrolled}
     inl = _Inliner(mods, baseline)
     try:
         touched = inl.run()
     except RecursionError:
+        touched = {}
+    if not inl.done and not unrolled:
         return {}, []
-    if not inl.done:
-        return {}, []
+    for mod, key in unrolled:
+        touched.setdefault(mod, set()).add(key)
     out = {}
     for mod in touched:
         orig = ast.parse(src[mod])
@@ -1319,4 +1590,4 @@ def integrate(mods, src):
             ast.fix_missing_locations(mods[mod])
             mods[mod] = ast.parse(ast.unparse(mods[mod]))
             out[mod] = {}
-    return out, inl.done
+    return out, inl.done + sorted(f'{k} (table loop unrolled)' for _m, k in unrolled)
